@@ -35,7 +35,8 @@ impl Mp4Box for UdtaBox {
     }
 
     fn to_json(&self) -> Result<String> {
-        Ok(serde_json::to_string(&self).unwrap())
+        serde_json::to_string(&self)
+            .map_err(|_| Error::InvalidData("udta box cannot be serialized"))
     }
 
     fn summary(&self) -> Result<String> {
